@@ -66,6 +66,16 @@ tx transfer(quantity: Int) {
     output { to: Sender, amount: source - fees, }
 }""",
 }
+# an optional output that is always empty (and so dropped) before the output min_utxo asks about: the position the
+# template names does not exist in the compiled body
+SRC["optional_drop_min"] = """party Sender;
+party Receiver;
+tx transfer(quantity: Int) {
+    input source { from: Sender, min_amount: fees + Ada(quantity), }
+    output ? gift { to: Receiver, amount: Ada(quantity) - Ada(quantity), }
+    output deposit { to: Receiver, amount: min_utxo(change), }
+    output change { to: Sender, amount: source - fees - min_utxo(change), }
+}"""
 KIND = {"transfer": "transfer", "transfer_nofee_min": "transfer", "transfer_min": "transfer_min"}
 
 
@@ -308,8 +318,8 @@ def check_c20(tier, seed):
     core.build_driver()
     quick = tier == "quick"
     design(rep, quick)
-    tpls = ["out0", "out1", "out3_min2", "out5", "transfer", "transfer_min", "fail", "big_datum_tight"]
-    targets = ["transfer_min", "out3_min2", "transfer", "out1", "fail"]
+    tpls = ["out0", "out1", "out3_min2", "out5", "transfer", "transfer_min", "fail", "big_datum_tight", "optional_drop_min"]
+    targets = ["transfer_min", "out3_min2", "transfer", "out1", "fail", "optional_drop_min"]
     qq = lambda xs: ", ".join('"%s"' % x for x in xs)  # noqa
     g = core.tlc_mc("MC_History", HIST_CFG.format(tpls=qq(tpls), targets=qq(targets), n=2 if quick else 3),
                     "c20_hist", workers=4, timeout=900)
